@@ -116,15 +116,13 @@ def handleMusig : List String → String
     match hexToList? msg, parseTweakOpt? tw, (signers.splitOn ",").mapM parseSigner? with
     | some msg, some tw, some signers => session (sort == "1") msg tw signers
     | _, _, _ => "bad-op"
-  | ["msign", d, rand, an, keys, msg, sort, tw] =>
-    match hexToNat? d, hexToList? rand, hexToList? an, parseKeys? keys, hexToList? msg, parseTweakOpt? tw with
-    | some d, some rand, some an, some keys, some msg, some tw =>
-      match genNonces rand (serializeCompressed (mulG d)) [] [] none [] with
+  | ["msign", d, sec, an, keys, msg, sort, tw] =>
+    match hexToNat? d, hexToList? sec, hexToList? an, parseKeys? keys, hexToList? msg, parseTweakOpt? tw with
+    | some d, some sec, some an, some keys, some msg, some tw =>
+      if sec.length ≠ 97 ∨ an.length ≠ 66 ∨ msg.length ≠ 32 then "bad-op" else
+      match sign sec d an keys msg (sort.startsWith "1") (twOf tw) (sort.endsWith "f") with
+      | some (s, r) => s!"s={hex32 s} r={showPoint r}"
       | none => "err"
-      | some (sec, _) =>
-        match sign sec d an keys msg (sort == "1") (twOf tw) with
-        | some (s, r) => s!"s={hex32 s} r={showPoint r}"
-        | none => "err"
     | _, _, _, _, _, _ => "bad-op"
   | ["ctx", sort, msg, tw, signers] =>
     -- the Context/Session API is a wrapper around the same functions: same aggregate key and final signature
